@@ -1,0 +1,78 @@
+//go:build verif
+
+// Contracts for the Numscript VM, read by /verif/govc.
+// This file contains comments only; it is compiled only with -tags verif.
+
+package vm
+
+// bal: the balance the machine tracks for (account, asset); absent or nil entries count as 0,
+// which is how MonetaryInt.Add/Sub treat a nil operand.
+//@ def hasB(m, a, s) = has(m.Balances, a) && has(m.Balances[a], s)
+//@ def bal(m, a, s) = ite(has(m.Balances, a) && has(m.Balances[a], s) && m.Balances[a][s] != nil, val(m.Balances[a][s]), 0)
+// wf: the per-account balance maps are distinct objects (what ResolveBalances builds)
+//@ def wf(m) = m != nil && m.Balances != nil && (forall a1 machine.AccountAddress, a2 machine.AccountAddress :: has(m.Balances, a1) && has(m.Balances, a2) && a1 != a2 ==> m.Balances[a1] != m.Balances[a2]) && (forall a3 machine.AccountAddress :: has(m.Balances, a3) ==> m.Balances[a3] != nil)
+//@ def sameDomain(m) = (forall a4 machine.AccountAddress :: has(m.Balances, a4) == old(has(m.Balances, a4)) && m.Balances[a4] == old(m.Balances[a4])) && m.Balances == old(m.Balances)
+
+//@ func (*vm.Machine).withdrawAll
+//@   requires wf(m) && overdraft != nil
+//@   requires hasB(m, account, asset) ==> m.Balances[account][asset] != nil
+//@   ensures err != nil <==> !old(hasB(m, account, asset))
+//@   ensures err != nil ==> ret0 == nil
+//@   ensures err == nil ==> ret0 != nil && len(ret0.Parts) == 1 && ret0.Asset == asset && ret0.Parts[0].Account == account && ret0.Parts[0].Amount != nil
+//@   ensures err == nil ==> val(ret0.Parts[0].Amount) == max(0, old(bal(m, account, asset)) + val(overdraft))
+//@   ensures err == nil ==> bal(m, account, asset) == old(bal(m, account, asset)) - val(ret0.Parts[0].Amount)
+//@   ensures err == nil ==> bal(m, account, asset) >= min(old(bal(m, account, asset)), 0 - val(overdraft))      // the floor of C01
+//@   ensures forall a machine.AccountAddress, s machine.Asset :: (a != account || s != asset) ==> bal(m, a, s) == old(bal(m, a, s)) && hasB(m, a, s) == old(hasB(m, a, s))
+//@   ensures hasB(m, account, asset) == old(hasB(m, account, asset)) && (hasB(m, account, asset) ==> m.Balances[account][asset] != nil)
+//@   ensures err != nil ==> bal(m, account, asset) == old(bal(m, account, asset))
+//@   ensures wf(m) && sameDomain(m)
+//@   modifies map[machine.Asset]*machine.MonetaryInt, machine.Funding.*
+//@   nopanic
+//@   property C01
+
+//@ func (*vm.Machine).withdrawAlways
+//@   requires wf(m) && mon.Amount != nil
+//@   requires hasB(m, account, mon.Asset) ==> m.Balances[account][mon.Asset] != nil
+//@   ensures err != nil <==> !old(hasB(m, account, mon.Asset))
+//@   ensures err == nil ==> ret0 != nil && len(ret0.Parts) == 1 && ret0.Asset == mon.Asset && ret0.Parts[0].Account == account && ret0.Parts[0].Amount == mon.Amount
+//@   ensures err == nil ==> bal(m, account, mon.Asset) == old(bal(m, account, mon.Asset)) - val(mon.Amount)
+//@   ensures forall a machine.AccountAddress, s machine.Asset :: (a != account || s != mon.Asset) ==> bal(m, a, s) == old(bal(m, a, s)) && hasB(m, a, s) == old(hasB(m, a, s))
+//@   ensures err != nil ==> bal(m, account, mon.Asset) == old(bal(m, account, mon.Asset))
+//@   ensures wf(m) && sameDomain(m)
+//@   modifies map[machine.Asset]*machine.MonetaryInt, machine.Funding.*
+//@   nopanic
+//@   property C01
+
+//@ func (*vm.Machine).credit
+//@   requires wf(m)
+//@   requires forall j in 0..len(funding.Parts) :: funding.Parts[j].Amount != nil
+//@   ensures (account != "world" && old(hasB(m, account, funding.Asset))) ==> bal(m, account, funding.Asset) == old(bal(m, account, funding.Asset)) + total(funding.Parts)
+//@   ensures (account == "world" || !old(hasB(m, account, funding.Asset))) ==> bal(m, account, funding.Asset) == old(bal(m, account, funding.Asset))
+//@   ensures forall a machine.AccountAddress, s machine.Asset :: (a != account || s != funding.Asset) ==> bal(m, a, s) == old(bal(m, a, s))
+//@   ensures forall a machine.AccountAddress, s machine.Asset :: hasB(m, a, s) == old(hasB(m, a, s))
+//@   ensures wf(m) && sameDomain(m)
+//@   loop 1 invariant 0 - 1 <= rangeindex && rangeindex < len(funding.Parts)
+//@   loop 1 invariant wf(m) && sameDomain(m) && accBalance == m.Balances[account] && has(m.Balances, account) && account != "world"
+//@   loop 1 invariant bal(m, account, funding.Asset) == old(bal(m, account, funding.Asset)) + total(funding.Parts[:rangeindex+1])
+//@   loop 1 invariant forall a machine.AccountAddress, s machine.Asset :: (a != account || s != funding.Asset) ==> bal(m, a, s) == old(bal(m, a, s))
+//@   loop 1 invariant forall a machine.AccountAddress, s machine.Asset :: hasB(m, a, s) == old(hasB(m, a, s))
+//@   loop 1 invariant hasB(m, account, funding.Asset) && (rangeindex >= 0 ==> m.Balances[account][funding.Asset] != nil)
+//@   loop 1 decreases len(funding.Parts) - rangeindex
+//@   modifies map[machine.Asset]*machine.MonetaryInt
+//@   nopanic
+//@   property C01
+
+//@ func (*vm.Machine).repay
+//@   requires wf(m)
+//@   requires forall j in 0..len(funding.Parts) :: funding.Parts[j].Amount != nil && (funding.Parts[j].Account != "world" ==> has(m.Balances, funding.Parts[j].Account))
+//@   ensures forall a machine.AccountAddress :: a != "world" ==> bal(m, a, funding.Asset) == old(bal(m, a, funding.Asset)) + sumFor(funding.Parts, a)
+//@   ensures forall a machine.AccountAddress, s machine.Asset :: (s != funding.Asset || a == "world") ==> bal(m, a, s) == old(bal(m, a, s))
+//@   ensures wf(m) && sameDomain(m)
+//@   loop 1 invariant 0 - 1 <= rangeindex && rangeindex < len(funding.Parts)
+//@   loop 1 invariant wf(m) && sameDomain(m)
+//@   loop 1 invariant forall a machine.AccountAddress :: a != "world" ==> bal(m, a, funding.Asset) == old(bal(m, a, funding.Asset)) + sumFor(funding.Parts[:rangeindex+1], a)
+//@   loop 1 invariant forall a machine.AccountAddress, s machine.Asset :: (s != funding.Asset || a == "world") ==> bal(m, a, s) == old(bal(m, a, s))
+//@   loop 1 decreases len(funding.Parts) - rangeindex
+//@   modifies map[machine.Asset]*machine.MonetaryInt
+//@   nopanic
+//@   property C01
